@@ -170,6 +170,19 @@ def observe(cmd, args):
             res.setdefault(json.dumps(op), set()).add(canon(r))
         if hash(sp) != h0 or str(sp) != s0: return "OBJECT-CHANGED"
         return canon({k: sorted(v) for k, v in res.items()})
+    if cmd == "law.det.fresh":      # editing the public mutable parts of one object must not change another object or a later construction
+        ta, tb = args
+        try: b0 = Requirement(tb); a = Requirement(ta)
+        except InvalidRequirement: return "ok"
+        snap = lambda r: (str(r), hash(r), sorted(r.extras), r.url, str(r.specifier), str(r.marker))
+        s0 = snap(b0)
+        a.extras.add("zz-injected"); a.extras.add("zz-2")
+        try:
+            if snap(b0) != s0: return "editing the extras of Requirement(%r) changed another Requirement object: %r -> %r" % (ta, s0[0], str(b0))
+            if snap(Requirement(tb)) != s0: return "editing the extras of Requirement(%r) changed what %r parses to afterwards: %r" % (ta, tb, str(Requirement(tb)))
+        finally:
+            a.extras.discard("zz-injected"); a.extras.discard("zz-2")
+        return "ok"
     if cmd == "law.det.perm":       # order-insensitive inputs: two supply orders must give the same observable value
         kind, seed, items = args[0], int(args[1]), list(args[2:])
         r = random.Random(seed); p = items[:]; r.shuffle(p)
